@@ -1,1 +1,161 @@
-"""placeholder"""
+"""R-DEG: homogeneity degree of each footprint formula in each documented driver (DESIGN §4.4, §5.B)."""
+from . import rule
+from ..frontend import AnalysisError
+from ..interp import Interp, d_add, TOP
+from ..report import Finding, RuleResult
+
+# Oracle transcribed from the statements of C12 (and C17's two formulas, C02's last clause, C03's linearity clause).
+# (driver attribute, classes declaring it, [(target class, target attribute, expected degree | "indep")])
+ORACLE = [
+    ("power_usage_effectiveness", ["ServerBase"], [
+        ("Server", "instances_energy", 1), ("GPUServer", "instances_energy", 1),
+        ("BoaviztaCloudServer", "instances_energy", 1), ("Storage", "instances_energy", 1),
+        ("Server", "energy_footprint", 1), ("Storage", "energy_footprint", 1),
+        ("Server", "instances_fabrication_footprint", "indep"), ("Network", "energy_footprint", "indep"),
+        ("UsagePattern", "energy_footprint", "indep"), ("Storage", "instances_fabrication_footprint", "indep")]),
+    ("average_carbon_intensity", ["ServerBase"], [
+        ("Server", "energy_footprint", 1), ("GPUServer", "energy_footprint", 1), ("Storage", "energy_footprint", 1),
+        ("BoaviztaCloudServer", "energy_footprint", 1), ("Server", "instances_energy", "indep"),
+        ("Network", "energy_footprint", "indep"), ("UsagePattern", "devices_energy_footprint", "indep")]),
+    ("bandwidth_energy_intensity", ["Network"], [
+        ("Network", "energy_footprint", 1), ("Server", "energy_footprint", "indep"),
+        ("UsagePattern", "energy_footprint", "indep")]),
+    ("hourly_data_transferred_per_usage_pattern", ["JobBase"], [
+        ("Network", "energy_footprint", 1), ("Server", "energy_footprint", "indep")]),
+    ("data_transferred", ["Job"], [
+        ("Job", "hourly_data_transferred_per_usage_pattern", 1),
+        ("Job", "hourly_data_transferred_across_usage_patterns", 1),
+        ("Server", "energy_footprint", "indep"), ("Storage", "energy_footprint", "indep")]),
+    ("average_carbon_intensity", ["Country"], [
+        ("Network", "energy_footprint", 1), ("UsagePattern", "devices_energy_footprint", 1),
+        ("UsagePattern", "energy_footprint", 1), ("Server", "energy_footprint", "indep"),
+        ("UsagePattern", "devices_fabrication_footprint", "indep")]),
+    ("power", ["Device"], [
+        ("UsagePattern", "devices_energy", 1), ("UsagePattern", "energy_footprint", 1),
+        ("UsagePattern", "instances_fabrication_footprint", "indep")]),
+    ("carbon_footprint_fabrication", ["Device"], [
+        ("UsagePattern", "devices_fabrication_footprint", 1), ("UsagePattern", "instances_fabrication_footprint", 1),
+        ("UsagePattern", "energy_footprint", "indep")]),
+    ("lifespan", ["Device"], [("UsagePattern", "devices_fabrication_footprint", -1),
+                              ("UsagePattern", "devices_energy", "indep")]),
+    ("fraction_of_usage_time", ["Device"], [("UsagePattern", "devices_fabrication_footprint", -1),
+                                            ("UsagePattern", "devices_energy", "indep")]),
+    ("carbon_footprint_fabrication", ["Server"], [
+        ("Server", "instances_fabrication_footprint", 1), ("Server", "energy_footprint", "indep")]),
+    ("lifespan", ["InfraHardware"], [
+        ("Server", "instances_fabrication_footprint", -1), ("Storage", "instances_fabrication_footprint", -1),
+        ("GPUServer", "instances_fabrication_footprint", -1), ("BoaviztaCloudServer", "instances_fabrication_footprint", -1),
+        ("Server", "energy_footprint", "indep")]),
+    ("carbon_footprint_fabrication_per_storage_capacity", ["Storage"], [
+        ("Storage", "instances_fabrication_footprint", 1), ("Storage", "energy_footprint", "indep")]),
+    ("hourly_usage_journey_starts", ["UsagePattern"], [
+        ("UsagePattern", "utc_hourly_usage_journey_starts", 1),
+        ("Job", "hourly_occurrences_across_usage_patterns", 1), ("Job", "hourly_avg_occurrences_across_usage_patterns", 1),
+        ("Job", "hourly_data_transferred_across_usage_patterns", 1), ("Job", "hourly_data_stored_across_usage_patterns", 1),
+        ("GenAIJob", "hourly_avg_occurrences_across_usage_patterns", 1),
+        ("VideoStreamingJob", "hourly_data_transferred_across_usage_patterns", 1),
+        ("Network", "energy_footprint", 1), ("UsagePattern", "nb_usage_journeys_in_parallel", 1),
+        ("UsagePattern", "devices_energy", 1), ("UsagePattern", "devices_fabrication_footprint", 1),
+        ("UsagePattern", "energy_footprint", 1),
+        ("Server", "hour_by_hour_ram_need", 1), ("Server", "hour_by_hour_compute_need", 1),
+        ("Server", "raw_nb_of_instances", 1), ("GPUServer", "raw_nb_of_instances", 1)]),
+    ("bits_per_pixel", ["VideoStreaming"], [
+        ("VideoStreamingJob", "dynamic_bitrate", 1), ("VideoStreamingJob", "data_transferred", 1)]),
+    ("refresh_rate", ["VideoStreamingJob"], [
+        ("VideoStreamingJob", "dynamic_bitrate", 1), ("VideoStreamingJob", "data_transferred", 1)]),
+    ("video_duration", ["VideoStreamingJob"], [
+        ("VideoStreamingJob", "data_transferred", 1), ("VideoStreamingJob", "request_duration", 1),
+        ("VideoStreamingJob", "dynamic_bitrate", "indep")]),
+    ("dynamic_bitrate", ["VideoStreamingJob"], [("VideoStreamingJob", "data_transferred", 1),
+                                                ("VideoStreamingJob", "compute_needed", 1)]),
+    ("instances_energy", ["InfraHardware"], [
+        ("Server", "energy_footprint", 1), ("Storage", "energy_footprint", 1), ("GPUServer", "energy_footprint", 1)]),
+    ("devices_energy", ["UsagePattern"], [("UsagePattern", "devices_energy_footprint", 1)]),
+    ("nb_of_instances", ["InfraHardware"], [
+        ("Server", "instances_fabrication_footprint", 1), ("Storage", "instances_fabrication_footprint", 1)]),
+]
+
+
+class Degrees:
+    """degree of every calculated attribute in one driver, computed lazily by interpreting only the cone it needs"""
+
+    def __init__(self, E, dattr, dclasses):
+        self.E, self.pm = E, E.pm
+        self.dattr = dattr
+        self.dclasses = set()
+        for c in dclasses:
+            self.dclasses |= {c} | set(self.pm.subclasses(c))
+        self.memo = {}
+        self.unknown = []
+        self.I = Interp(self.pm)
+        self.I.kind_hook = E.kind_of
+        self.I.deg_hook = self.hook
+
+    def hook(self, cn, attr):
+        if attr == self.dattr and cn in self.dclasses:
+            return {"*": 1}
+        if self.E.is_calc(cn, attr):
+            return self.deg_of(cn, attr)
+        return {}
+
+    def deg_of(self, c, x):
+        if (c, x) in self.memo:
+            return self.memo[(c, x)]
+        self.memo[(c, x)] = {"*": TOP}      # cycle guard
+        cx = self.I.run_rule(c, x)
+        self.unknown += [f"{c}.update_{x}: {u}" for u in cx.unknown]
+        d = None
+        first = True
+        for w in cx.writes.get(x, []):
+            v = w.value
+            wd = v.deg if v is not None and v.k in ("E", "raw") else None
+            d = wd if first else d_add(d, wd)
+            first = False
+        self.memo[(c, x)] = d
+        return d
+
+
+def scalar(d):
+    if d is None:
+        return "bottom"
+    return d.get("*", 0)
+
+
+@rule("R-DEG")
+def r_deg(E):
+    pm = E.pm
+    res = RuleResult("R-DEG", "each footprint formula is homogeneous of the documented degree in each documented driver "
+                              "(over exact arithmetic), and does not read the drivers documented as not affecting it")
+    for dattr, dcls, rows in ORACLE:
+        D = Degrees(E, dattr, dcls)
+        dpairs = {(c, dattr) for k in dcls for c in [k] + pm.subclasses(k)}
+        for (c, x, exp) in rows:
+            res.instances += 1
+            if not E.is_calc(c, x):
+                res.undecided.append(f"oracle row {c}.{x}: not a calculated attribute any more")
+                continue
+            owner, fn = pm.find_method(c, "update_" + x)
+            drv = f"{'/'.join(dcls)}.{dattr}"
+            if exp == "indep":
+                hit = dpairs & E.read_star(c, x)
+                if hit:
+                    res.findings.append(Finding(
+                        "R-DEG", f"{c}.{x} independent of {drv}",
+                        f"{c}.{x} must not respond to {drv} but its rule (transitively) reads {sorted(hit)[0][0]}."
+                        f"{dattr}", pm.path_of(owner), fn.lineno, f"{owner}.update_{x}"))
+                elif len(res.samples) < 10 and len(res.samples) % 2:
+                    res.samples.append({"driver": drv, "target": f"{c}.{x}", "expected": "independent",
+                                        "verdict": "driver not in the transitive read set"})
+                continue
+            got = scalar(D.deg_of(c, x))
+            if got != exp:
+                res.findings.append(Finding(
+                    "R-DEG", f"deg[{drv}]({c}.{x}) expected {exp}",
+                    f"multiplying {drv} by k must multiply {c}.{x} by k^{exp}, but the formula has degree "
+                    f"{'undefined (not homogeneous)' if got == TOP else got} in it", pm.path_of(owner), fn.lineno,
+                    f"{owner}.update_{x}", {"got": str(got)}))
+            elif len(res.samples) < 10:
+                res.samples.append({"driver": drv, "target": f"{c}.{x}", "expected_degree": exp, "derived_degree": got})
+        res.undecided += sorted(set(D.unknown))
+    res.floor = 80
+    return res
